@@ -81,13 +81,13 @@ class ClassInfo:
         return f"<Class {self.qual}>"
 
 
-def _canon_tree(tree: ast.AST) -> None:
+def _canon_once(tree: ast.AST) -> None:
     """Spelling-only canonicalisation applied to every module when it is loaded, so that no rule
     ever sees the difference:
 
       ``x = E`` directly followed by ``return x`` (x used nowhere else in the function)  ->  ``return E``
       ``x = <bool expr>`` directly followed by ``if x:`` / ``if not x:`` (x used nowhere else)  ->  ``if <bool expr>:``
-      ``if not c: B else: A``  ->  ``if c: A else: B``   (elif chains are left alone)
+      ``if not c: B else: A``  ->  ``if c: A else: B``   (also when an arm is an elif chain)
       ``if x is not None: A else: B`` -> ``if x is None: B else: A``  (likewise ``!=``, ``not in``)
       ``a < b`` -> ``b > a`` and ``a <= b`` -> ``b >= a``
       ``not (a == b)`` -> ``a != b`` (likewise ``is`` / ``in``), De Morgan with the negation inwards
@@ -154,6 +154,27 @@ def _canon_tree(tree: ast.AST) -> None:
                         blk[i_ + 1 : i_ + 1] = tail
                         changed = True
                         break
+                    # the leaving branch first: `if c: B else: <leaves>`  ->  `if not c: <leaves>; B`
+                    if isinstance(st, ast.If) and st.orelse and _always_leaves(st.orelse) and not _always_leaves(st.body):
+                        tail = st.body
+                        st.test = _PushNot().visit(ast.copy_location(ast.UnaryOp(op=ast.Not(), operand=st.test), st.test))
+                        st.body = st.orelse
+                        st.orelse = []
+                        blk[i_ + 1 : i_ + 1] = tail
+                        ast.fix_missing_locations(st)
+                        changed = True
+                        break
+    # in a test only truthiness counts: `not not x` is `x` there (also inside its and/or operands)
+    def _strip_nn(e):
+        if isinstance(e, ast.UnaryOp) and isinstance(e.op, ast.Not) and isinstance(e.operand, ast.UnaryOp) and isinstance(e.operand.op, ast.Not):
+            return _strip_nn(e.operand.operand)
+        if isinstance(e, ast.BoolOp):
+            e.values = [_strip_nn(v) for v in e.values]
+        return e
+
+    for n in ast.walk(tree):
+        if isinstance(n, (ast.If, ast.While, ast.IfExp)):
+            n.test = _strip_nn(n.test)
     # operands of == / != / is / is not in one order: the constant (a literal, or an ALL_CAPS name
     # such as TOKEN_EOF / Mode.STRICT) on the right; otherwise by their text
     def _rank(e) -> int:
@@ -234,15 +255,21 @@ def _canon_tree(tree: ast.AST) -> None:
                         del block[i]
                         continue
                 i += 1
-            # `if not c: B else: A`  ->  `if c: A else: B`  (not for elif chains)
+            # `if not c: B else: A`  ->  `if c: A else: B`
             for st in block:
-                if isinstance(st, ast.If) and st.orelse and not (len(st.orelse) == 1 and isinstance(st.orelse[0], ast.If)) and isinstance(st.test, ast.UnaryOp) and isinstance(st.test.op, ast.Not):
+                if isinstance(st, ast.If) and st.orelse and isinstance(st.test, ast.UnaryOp) and isinstance(st.test.op, ast.Not):
                     st.test = st.test.operand
                     st.body, st.orelse = st.orelse, st.body
                 # `if x is not None: A else: B`  ->  `if x is None: B else: A`  (likewise != / not in)
-                if isinstance(st, ast.If) and st.orelse and not (len(st.orelse) == 1 and isinstance(st.orelse[0], ast.If)) and isinstance(st.test, ast.Compare) and len(st.test.ops) == 1 and isinstance(st.test.ops[0], (ast.IsNot, ast.NotEq, ast.NotIn)):
+                if isinstance(st, ast.If) and st.orelse and isinstance(st.test, ast.Compare) and len(st.test.ops) == 1 and isinstance(st.test.ops[0], (ast.IsNot, ast.NotEq, ast.NotIn)):
                     pos = {ast.IsNot: ast.Is, ast.NotEq: ast.Eq, ast.NotIn: ast.In}[type(st.test.ops[0])]
                     st.test.ops[0] = pos()
+                    st.body, st.orelse = st.orelse, st.body
+                # `if not a or not b: B else: A`  ->  `if a and b: A else: B`  (the De Morgan dual of a
+                # test whose operands are all negative; what `if not (a and b)` becomes once the
+                # negation is pushed inwards)
+                if isinstance(st, ast.If) and st.orelse and isinstance(st.test, ast.BoolOp) and all(_is_negative(v) for v in st.test.values):
+                    st.test = ast.copy_location(ast.BoolOp(op=ast.And() if isinstance(st.test.op, ast.Or) else ast.Or(), values=[_positive(v) for v in st.test.values]), st.test)
                     st.body, st.orelse = st.orelse, st.body
 
         for n in ast.walk(fn):
@@ -253,6 +280,69 @@ def _canon_tree(tree: ast.AST) -> None:
             if isinstance(n, ast.Try):
                 for h in n.handlers:
                     fix(h.body)
+    # a conditional expression that is the whole value of an assignment or a return is written as
+    # the if/else statement it abbreviates:  `x = A if c else B`  ->  `if c: x = A else: x = B`
+    # (plain-name targets only: the target is evaluated once either way)
+    import copy as _copy
+
+    def _expand(st: ast.stmt):
+        v = getattr(st, "value", None)
+        if not isinstance(v, ast.IfExp):
+            return None
+        if isinstance(st, ast.Return):
+            mk = lambda e: ast.copy_location(ast.Return(value=e), st)  # noqa: E731
+        elif isinstance(st, ast.Assign) and len(st.targets) == 1 and isinstance(st.targets[0], ast.Name):
+            mk = lambda e: ast.copy_location(ast.Assign(targets=[_copy.deepcopy(st.targets[0])], value=e, type_comment=None), st)  # noqa: E731
+        elif isinstance(st, ast.AnnAssign) and isinstance(st.target, ast.Name) and st.simple:
+            mk = lambda e: ast.copy_location(ast.Assign(targets=[_copy.deepcopy(st.target)], value=e, type_comment=None), st)  # noqa: E731
+        elif isinstance(st, ast.AugAssign) and isinstance(st.target, ast.Name):
+            mk = lambda e: ast.copy_location(ast.AugAssign(target=_copy.deepcopy(st.target), op=st.op, value=e), st)  # noqa: E731
+        else:
+            return None
+        return ast.copy_location(ast.If(test=v.test, body=[mk(v.body)], orelse=[mk(v.orelse)]), st)
+
+    changed_ = True
+    while changed_:
+        changed_ = False
+        for n in ast.walk(tree):
+            if isinstance(n, ast.ClassDef) or isinstance(n, ast.Module):
+                continue  # class / module level assignments stay expressions (constants are folded from them)
+            for fld in ("body", "orelse", "finalbody"):
+                blk = getattr(n, fld, None)
+                if isinstance(blk, list):
+                    for i, st in enumerate(blk):
+                        if isinstance(st, ast.stmt):
+                            r = _expand(st)
+                            if r is not None:
+                                blk[i] = r
+                                changed_ = True
+            if isinstance(n, ast.Try):
+                for h in n.handlers:
+                    for i, st in enumerate(h.body):
+                        r = _expand(st)
+                        if r is not None:
+                            h.body[i] = r
+                            changed_ = True
+    ast.fix_missing_locations(tree)
+
+
+def _canon_tree(tree: ast.AST) -> None:
+    """Two rounds of ``_canon_once``: the passes feed each other (a result variable folded into its
+    return exposes a conditional expression, whose expansion exposes an else after a leaving
+    branch, ...); the second round reaches the common form, a third changes nothing."""
+    _canon_once(tree)
+    _canon_once(tree)
+
+
+def _is_negative(e: ast.AST) -> bool:
+    return (isinstance(e, ast.UnaryOp) and isinstance(e.op, ast.Not)) or (isinstance(e, ast.Compare) and len(e.ops) == 1 and isinstance(e.ops[0], (ast.IsNot, ast.NotEq, ast.NotIn)))
+
+
+def _positive(e: ast.AST) -> ast.AST:
+    if isinstance(e, ast.UnaryOp):
+        return e.operand
+    pos = {ast.IsNot: ast.Is, ast.NotEq: ast.Eq, ast.NotIn: ast.In}[type(e.ops[0])]
+    return ast.copy_location(ast.Compare(left=e.left, ops=[pos()], comparators=e.comparators), e)
 
 
 class Module:
